@@ -406,7 +406,7 @@ def speed_candidates(rng, track_shapes, limit):
     pick = ps if len(ps) <= limit else rng.sample(ps, limit)
     for s in pick:
         cands += [s, s * (1 - 1e-9), s * (1 + 1e-9)]
-    return cands
+    return list(dict.fromkeys(cands))
 
 
 def bound_tok(rng, v):
